@@ -58,6 +58,26 @@ def build_metric(name):
     raise ValueError(name)
 
 
+def raw_metric(name):
+    """The metric as a plain function of (y_true, y_pred), written here: what a score 'is',
+    independently of the scorer object handed to evaluate / the tuner."""
+    def arr(v):
+        return np.asarray(v, dtype=float)
+
+    eps = np.finfo(np.float64).eps
+    if name == "smape":
+        return lambda yt, yp: float(np.mean(2.0 * np.abs(arr(yt) - arr(yp)) / np.maximum(np.abs(arr(yt)) + np.abs(arr(yp)), eps)))
+    if name == "mape_asym":
+        return lambda yt, yp: float(np.mean(np.abs(arr(yt) - arr(yp)) / np.maximum(np.abs(arr(yt)), eps)))
+    if name == "mse":
+        return lambda yt, yp: float(np.mean((arr(yt) - arr(yp)) ** 2))
+    if name == "signed":
+        return _signed
+    if name == "ratio":
+        return _ratio
+    raise ValueError(name)
+
+
 ASYM = ("mape_asym", "signed", "ratio")
 
 
@@ -80,7 +100,7 @@ def build_data(case):
     return y, X
 
 
-def honest_loop(spec, cv, y, X, strategy, metric, prefit):
+def honest_loop(spec, cv, y, X, strategy, metric, prefit, raw=None):
     rows = []
     f = pools.build_forecaster(spec)
     if prefit:
@@ -104,7 +124,7 @@ def honest_loop(spec, cv, y, X, strategy, metric, prefit):
             else:
                 g.update(y_train, X_train)
         y_pred = g.predict(fh, X=X_test)
-        rows.append({"score": metric(y_test, y_pred), "cutoff": cutoff, "len_train_window": len(y_train),
+        rows.append({"score": (raw or metric)(y_test, y_pred), "cutoff": cutoff, "len_train_window": len(y_train),
                      "y_train": y_train, "y_test": y_test, "y_pred": y_pred})
     return rows
 
@@ -123,7 +143,7 @@ def oracle(case, ctx):
     n_folds = sut(lambda: len(list(build_cv(case["cv"]).split(y))))
     if isinstance(n_folds, Raised):
         raise AssertionError("generator produced an infeasible splitter: %r" % (n_folds,))
-    exp = sut(honest_loop, spec, build_cv(case["cv"]), y, X, strategy, metric, case["prefit"])
+    exp = sut(honest_loop, spec, build_cv(case["cv"]), y, X, strategy, metric, case["prefit"], raw_metric(case["metric"]))
     if isinstance(exp, Raised):
         # the forecaster itself cannot handle this configuration: evaluate must not invent a result
         ctx.mark_rejected()
